@@ -62,14 +62,10 @@ def handle_missing_node_child[
                 command=Command.internal,
                 message_type=Internal.I_PRESENTATION,
             )
-            if (
-                presentation_message.node_id,
-                presentation_message.child_id,
-                presentation_message.message_type,
-            ) not in message_buffer.internal_messages:
+            if message.node_id not in message_buffer.presentation_requests:
                 await gateway.send(presentation_message, message_buffer=False)
-            # Buffer one message to avoid spamming gateway.
-            await gateway.send(presentation_message, message_buffer=True)
+                # Remember the request to avoid spamming gateway.
+                message_buffer.presentation_requests.add(message.node_id)
 
             raise
 
@@ -89,15 +85,16 @@ class IncomingMessageHandler(IncomingMessageHandler15):
         message_buffer: MessageBuffer,
     ) -> Message:
         """Process the sleep buffer and send it to the woken node."""
-        node_messages = {
-            key: buffer_message
-            for key, buffer_message in message_buffer.set_messages.items()
-            if buffer_message.node_id == message.node_id
-        }
-        for key, buffer_message in node_messages.items():
-            await gateway.send(buffer_message, message_buffer=False)
-            # clear the sleep buffer for this node
-            message_buffer.set_messages.pop(key)
+        for buffer in (message_buffer.internal_messages, message_buffer.set_messages):
+            node_messages = {
+                key: buffer_message
+                for key, buffer_message in buffer.items()
+                if buffer_message.node_id == message.node_id
+            }
+            for key, buffer_message in node_messages.items():
+                await gateway.send(buffer_message, message_buffer=False)
+                # clear the sleep buffer for this node
+                buffer.pop(key)
 
         return message
 
@@ -110,13 +107,9 @@ class IncomingMessageHandler(IncomingMessageHandler15):
         message_buffer: MessageBuffer,
     ) -> Message:
         """Process a presentation message."""
-        key = (
-            message.node_id,
-            message.child_id,
-            Internal.I_PRESENTATION,
-        )
-        if key in message_buffer.internal_messages:
-            message_buffer.internal_messages.pop(key)
+        if message.child_id == SYSTEM_CHILD_ID:
+            # The node has presented itself.
+            message_buffer.presentation_requests.discard(message.node_id)
         return await super().handle_presentation(gateway, message, message_buffer)
 
     @classmethod
